@@ -4,6 +4,7 @@ import (
 	"bytes"
 	"crypto/sha256"
 	"encoding/asn1"
+	"encoding/binary"
 	"encoding/hex"
 	"fmt"
 	"math/big"
@@ -461,7 +462,7 @@ func c06FieldAlternatives(kind string) []kv {
 func c06RewriteSub() *engine.Sub {
 	return &engine.Sub{
 		Name:  "structured-rewrites",
-		Rule:  "envelopes rebuilt with the harness' own assembler: every payload field replaced by every alternative value or dropped while keeping the old signature; the same SigPayload signed by another key of the same and of every other algorithm; signed by the issuer and by another key of its algorithm with the signature in the other encodings of its family (ECDSA: fixed-width r||s, s||r, DER; secp256k1 additionally the 65-byte compact recoverable form with every header byte class; Ed25519/RSA: reversed and doubled); the header replaced by every other algorithm's header, truncated, extended, emptied, or given another payload-encoding segment (DAG-JSON, raw, DAG-PB, CBOR), with the old signature, re-signed by the issuer, and - DAG-JSON - signed by the issuer over the DAG-JSON form of the SigPayload; the signature truncated to every length, emptied, extended; signature and header taken from another valid token of the same issuer; a forged payload (other audience / command) that embeds the genuine signature followed by the genuine signed bytes in its nonce or metadata, under the genuine signature; the forged payload under a signature element that carries the genuine signature next to the bytes it signs (6 layouts), and under every small well-formed DER SEQUENCE{INTEGER r, INTEGER s} with r, s over 8 short contents (empty included, short and long length form) and constant strings of the usual signature lengths; an issuer string that names the victim followed by '#', '?', '/' and another key or DID, signed by that other key. Every decoder - including the container readers, with and without such a 'pinning' invocation next to the entry - must reject, or return the original content with an independently verifiable signature; non-trivial = all",
+		Rule:  "envelopes rebuilt with the harness' own assembler: every payload field replaced by every alternative value or dropped while keeping the old signature; the same SigPayload signed by another key of the same and of every other algorithm; signed by the issuer and by another key of its algorithm with the signature in the other encodings of its family (ECDSA: fixed-width r||s, s||r, DER; secp256k1 additionally the 65-byte compact recoverable form with every header byte class; Ed25519/RSA: reversed and doubled); the header replaced by every other algorithm's header, truncated, extended, emptied, rewritten with each (and all) of its varints in a non-minimal spelling, or given another payload-encoding segment (DAG-JSON, raw, DAG-PB, CBOR), with the old signature, re-signed by the issuer, and - DAG-JSON - signed by the issuer over the DAG-JSON form of the SigPayload; the signature truncated to every length, emptied, extended; signature and header taken from another valid token of the same issuer; a forged payload (other audience / command) that embeds the genuine signature followed by the genuine signed bytes in its nonce or metadata, under the genuine signature; the forged payload under a signature element that carries the genuine signature next to the bytes it signs (6 layouts), and under every small well-formed DER SEQUENCE{INTEGER r, INTEGER s} with r, s over 8 short contents (empty included, short and long length form) and constant strings of the usual signature lengths; an issuer string that names the victim followed by '#', '?', '/' and another key or DID, signed by that other key. Every decoder - including the container readers, with and without such a 'pinning' invocation next to the entry - must reject, or return the original content with an independently verifiable signature; non-trivial = all",
 		Bound: func(t string) string { return "2 kinds x 6 (quick) / 7 (thorough) algorithms" },
 		Gen: func(tier string, emit func(any) bool) {
 			algs := []string{"ed25519", "secp256k1", "p256", "p384", "p521", "rsa2048"}
@@ -530,7 +531,7 @@ func c06RewriteSub() *engine.Sub {
 							}
 						}
 					}
-					for _, hv := range []string{"empty", "truncated", "extended", "first-byte-changed", "unknown"} {
+					for _, hv := range []string{"empty", "truncated", "extended", "first-byte-changed", "unknown", "nonminimal-varint-0", "nonminimal-varint-1", "nonminimal-varint-2", "nonminimal-varint-3", "nonminimal-varint-4", "all-varints-nonminimal"} {
 						for _, resign := range []string{"header-replaced-old-sig", "header-replaced-resigned"} {
 							if !emit(&c06RewriteCase{Kind: kind, Alg: alg, Rw: resign, Arg: hv}) {
 								return
@@ -738,6 +739,23 @@ func c06RewriteSub() *engine.Sub {
 					h = p.Header[:len(p.Header)-1]
 				case "extended":
 					h = append(append([]byte{}, p.Header...), 0x71)
+				case "nonminimal-varint-0", "nonminimal-varint-1", "nonminimal-varint-2", "nonminimal-varint-3", "nonminimal-varint-4", "all-varints-nonminimal":
+					// the same numbers, the k-th varint (or all) written with a padding group: 0x34 -> 0xb4 0x00
+					pos, k := 0, 0
+					for pos < len(p.Header) {
+						_, n := binary.Uvarint(p.Header[pos:])
+						if n <= 0 {
+							n = len(p.Header) - pos
+						}
+						v := append([]byte{}, p.Header[pos:pos+n]...)
+						if cs.Arg == "all-varints-nonminimal" || cs.Arg == fmt.Sprintf("nonminimal-varint-%d", k) {
+							v[len(v)-1] |= 0x80
+							v = append(v, 0x00)
+						}
+						h = append(h, v...)
+						pos += n
+						k++
+					}
 				case "first-byte-changed":
 					h = append([]byte{p.Header[0] ^ 1}, p.Header[1:]...)
 				case "unknown":
